@@ -30,9 +30,39 @@ _PTS = re.compile(r"^(\.points|\._landmarks\._landmark_groups\[.*\]\.points)$")
 _CACHE = ("._applied_points", "._iab")
 
 
-def structure_digest(o):
-    """Everything but the coordinates of the shape itself and of its landmark groups."""
-    return tuple((p, t) for p, t in digest.digest(o, with_flags=False) if not _PTS.match(p))
+def _tok(a):
+    a = np.asarray(a)
+    return (str(a.dtype), a.shape, a.tobytes())
+
+
+def structure_digest(o, depth=0):
+    """Everything a shape carries besides coordinates, read through the PUBLIC API only (so that the check does not
+    depend on private attribute names): class, point count, triangle list, adjacency, label -> mask dict in order,
+    colours, texture coordinates, texture pixels, root / predecessors, and recursively the landmark groups
+    (names in order, classes, structure)."""
+    out = [("class", type(o).__name__), ("n_points", int(o.n_points))]
+    if hasattr(o, "trilist"):
+        out.append(("trilist", _tok(o.trilist)))
+    if hasattr(o, "adjacency_matrix"):
+        m = o.adjacency_matrix.tocoo()
+        order = np.lexsort((m.col, m.row))
+        out.append(("adjacency", (tuple(m.shape), _tok(m.row[order]), _tok(m.col[order]), _tok(m.data[order]))))
+    if hasattr(o, "with_labels"):
+        # label -> member indices in label order, through the public JSON form
+        out.append(("labels", tuple((d["label"], tuple(d["mask"])) for d in o.tojson()["labels"])))
+    if hasattr(o, "colours"):
+        out.append(("colours", _tok(o.colours)))
+    if hasattr(o, "tcoords"):
+        out.append(("tcoords", _tok(o.tcoords.points)))
+    if hasattr(o, "texture"):
+        out.append(("texture", _tok(o.texture.pixels)))
+    if hasattr(o, "root_vertex"):
+        out.append(("root_vertex", int(o.root_vertex)))
+        out.append(("predecessors", tuple(o.predecessors_list)))
+    if depth == 0 and getattr(o, "has_landmarks", False):
+        for nm in o.landmarks.keys():
+            out.append(("landmark:" + nm, tuple(structure_digest(o.landmarks[nm], depth + 1))))
+    return tuple(out)
 
 
 @st.composite
